@@ -43,13 +43,16 @@ pub struct Case {
     /// schedule: park at (step, nth crossing), storing events until parked, read, release
     pub parks: Vec<(u8, u8)>,
     pub events: Vec<Ev>,
+    /// per park: how many more events are stored while the worker is parked (rotations pile up as passive buffers)
+    #[serde(default)]
+    pub extras: Vec<u8>,
 }
 
 fn case_strategy(tier: Tier, steps: Vec<u8>, single_type: bool, single_shard: bool) -> BoxedStrategy<Case> {
-    (1usize..=if single_shard { 1 } else { 2 }, 1usize..=3, 1usize..=2, 1usize..=2, 1usize..=3)
-        .prop_flat_map(move |(shards, epz, ff, n_types, n_ctx)| {
+    (1usize..=if single_shard { 1 } else { 2 }, 1usize..=3, 1usize..=2, 1usize..=2, 1usize..=3, prop::sample::select(vec![1usize, 2, 3, 8]))
+        .prop_flat_map(move |(shards, epz, ff, n_types, n_ctx, mip)| {
             let n_types = if single_type { 1 } else { n_types };
-            let cfg = DbConfig { shard_count: shards, event_per_zone: epz, fill_factor: ff, ..DbConfig::default() };
+            let cfg = DbConfig { shard_count: shards, event_per_zone: epz, fill_factor: ff, max_inflight_passives: mip, ..DbConfig::default() };
             let cap = cfg.capacity();
             (
                 Just(cfg),
@@ -57,10 +60,11 @@ fn case_strategy(tier: Tier, steps: Vec<u8>, single_type: bool, single_shard: bo
                 Just(n_ctx),
                 prop::collection::vec(simple_ev(n_types, n_ctx), 0..=cap * 2),
                 prop::collection::vec((prop::sample::select(steps.clone()), 1u8..=2), 1..=tier.pick(3, 5)),
-                prop::collection::vec(simple_ev(n_types, n_ctx), cap * 2..=cap * 8 + 4),
+                prop::collection::vec(simple_ev(n_types, n_ctx), cap * 2..=cap * 8 + 4 + cap * (mip.min(3) + 2) * 2),
+                prop::collection::vec(prop_oneof![2 => 0u8..=3, 1 => (0..=(cap * (mip.min(3) + 2)).min(40) as u8)], 5),
             )
         })
-        .prop_map(|(cfg, n_types, n_ctx, prefix, parks, events)| Case { cfg, n_types, n_ctx, prefix, parks, events })
+        .prop_map(|(cfg, n_types, n_ctx, prefix, parks, events, extras)| Case { cfg, n_types, n_ctx, prefix, parks, events, extras })
         .boxed()
 }
 
@@ -152,7 +156,7 @@ fn run_case(c: &Case, rep: &mut CaseReport) -> Verdict {
     }
     let mut evs = c.events.iter();
     let mut parked_reads = 0;
-    for (step, nth) in &c.parks {
+    for (pi, (step, nth)) in c.parks.iter().enumerate() {
         let name = PAUSE_STEPS[*step as usize % PAUSE_STEPS.len()];
         if let Err(e) = w.db.req(json!({"op":"arm_pause","step":name,"nth":*nth})) {
             return problem_verdict(Problem::Db(e), &mut w, rep);
@@ -184,7 +188,11 @@ fn run_case(c: &Case, rep: &mut CaseReport) -> Verdict {
         }
         rep.label(format!("parked:{}", name));
         // a few more writes while the flush is parked (they go to the fresh active memtable / queue)
-        for _ in 0..2 {
+        let extra = c.extras.get(pi).cloned().unwrap_or(2) as usize;
+        if extra > c.cfg.capacity() * c.cfg.max_inflight_passives {
+            rep.label("parked:rotations-beyond-max-inflight-passives");
+        }
+        for _ in 0..extra {
             if let Some(e) = evs.next() {
                 if name.starts_with("wal.") {
                     break; // WAL task parked: appends queue up behind it, stores still acknowledge
@@ -316,6 +324,7 @@ pub fn enumerate_steps_cases(count_ok: bool, steps: &[u8]) -> Vec<(String, u8, V
                 prefix: (0..3).map(ev).collect(),
                 parks: vec![(si as u8, nth)],
                 events: (3..15).map(ev).collect(),
+                extras: vec![2],
             };
             let _ = count_ok;
             let mut rep = CaseReport::default();
